@@ -347,7 +347,14 @@ def stream_guards(ctx, R="R-C11-stream-guards"):
                     key = "kaldi"
         if key:
             vals[key] = astq.raise_type(prog, f, r)
-    ctx.need(any(stream_side(g) for g, r in ev.raises), R, "no raise on the stream side (not isinstance(rfilename, str)) of read_signal")
+    if not any(stream_side(g) for g, r in ev.raises):
+        if any(S.show(g).find("isinstance(%s, str)" % rf) >= 0 for g, r in ev.raises) or not ev.raises:
+            ctx.error(R, "cannot decide the stream guards of read_signal: no raise is conditioned on `not isinstance(%s, str)`" % rf)
+        else:
+            ctx.bad(R, f, f.node, "read_signal no longer refuses a stream given without force_as (no raise on the path where %s is not a str): the type is then guessed "
+                    "from something other than the caller's statement - a stream's name, its first bytes - and a stream that used to be rejected with ValueError is "
+                    "decoded as whatever the guess says" % rf, "a stream without force_as raises ValueError")
+        return
     ctx.check(vals.get("none") == "ValueError", R, f, f.node, "a stream without force_as raises ValueError", "stream without force_as: %s" % vals)
     ctx.check(vals.get("kaldi") == "ValueError", R, f, f.node, "a stream with a Kaldi kind raises ValueError", "stream with kaldi kinds: %s" % vals)
     # inference only for str without force_as
